@@ -59,6 +59,16 @@ def _clouds(tier, seed):
     return out
 
 
+def _big_cloud(seed):
+    """5000 weighted descriptors in 2-D, three modes (block-wise code paths only exist at this size)."""
+    rng = np.random.default_rng([seed, 5000, 17])
+    c = np.array([[0.0, 0.0], [4.0, 1.0], [1.0, 5.0]])
+    D = np.round((c[rng.integers(0, 3, size=5000)] + rng.standard_normal((5000, 2)) * 0.6) * 256) / 256
+    w = 0.25 + (np.arange(5000) % 7) * 0.125
+    G = np.array([[0.1, -0.05], [3.9, 1.1], [1.05, 4.9], [2.0, 2.0]])
+    return D, w, G
+
+
 def _weights(n):
     light = [1e-3 if i < n // 2 else 1.0 for i in range(n)]  # one mode three orders of magnitude lighter
     return [None, [0.5 + 0.25 * (i % 3) + 0.05 * i for i in range(n)], [float(1 + (i * 2) % 3) for i in range(n)], light]
@@ -103,7 +113,7 @@ def bounds(tier, seed):
 
 
 def groups(tier, seed):
-    out = []
+    out = [dict(label="big5000", D=None, grid_label="big", G=None, tier=tier, seed=seed)]
     for label, D in _clouds(tier, seed):
         for gl, G in _grids(D, tier):
             out.append(dict(label=label, D=D, grid_label=gl, G=G, tier=tier))
@@ -111,6 +121,9 @@ def groups(tier, seed):
 
 
 def cases(group):
+    if group["label"] == "big5000":
+        yield dict(label="big5000", big_seed=group["seed"], setting=dict(fpoints=0.4), cell=None)
+        return
     D, G = group["D"], group["G"]
     d = len(D[0])
     for wi, w in enumerate(_weights(len(D))):
@@ -252,6 +265,8 @@ def check(case):
 
     warnings.simplefilter("ignore")
     r = R()
+    if "big_seed" in case:
+        return _check_big(r, case)
     D = np.array(case["D"], float)
     G = np.array(case["G"], float)
     n, dim = D.shape
@@ -335,6 +350,16 @@ def check(case):
         return r
     # ---- the documented mixture
     Q = _queries(D, G, cell)
+    if (len(G) + n) % 2:
+        # order of public calls: drawing samples first must not change what is scored afterwards
+        try:
+            m.sample(3, random_state=0)
+            m.sample(2, random_state=1)
+        except Exception as e:
+            return r.fail("sample-crash:%s" % type(e).__name__, repr(e))
+        gw2 = getattr(m, "_sample_weights", None)
+        if gw is not None and gw2 is not None and np.abs(np.asarray(gw2, float) - W).max() > 1e-12:
+            return r.fail("sample-changes-the-grid-weights", "%s" % np.asarray(gw2).tolist())
     try:
         got = np.asarray(m.score_samples(Q.copy()), float)
         tot = float(m.score(Q.copy()))
@@ -424,4 +449,33 @@ def check(case):
                 if not compare("grid point %d shifted by %+d cell on axis %d (cell %s)" % (len(G) - 1, s, ax, np.round(c, 6).tolist()), D, wlist, G2, Q, kind):
                     return r
     r.outcome = [np.round(got[fin], 6).tolist()]
+    return r
+
+
+def _check_big(r, case):
+    """Large weighted cloud: assignment, grid weights and the mixture at a few queries."""
+    D, wraw, G = _big_cloud(case["big_seed"])
+    w = wraw / wraw.sum()
+    labels = _sq(D, G, None).argmin(axis=1)
+    W = np.array([w[labels == j].sum() for j in range(len(G))])
+    try:
+        m, _ = _fit(D, wraw, G, case["setting"], None)
+    except Exception as e:
+        return r.fail("fit-crash:%s" % type(e).__name__, repr(e))
+    r.states = 1
+    r.transitions = 1
+    lab = getattr(m, "_sample_labels_", None)
+    if lab is not None and [int(x) for x in lab] != labels.tolist():
+        return r.fail("assignment-not-nearest-grid-point", "large cloud")
+    gw = getattr(m, "_sample_weights", None)
+    if gw is not None and (np.abs(np.asarray(gw, float) - W).max() > 1e-10 or abs(float(np.sum(gw)) - 1) > 1e-9):
+        return r.fail("grid-weights-not-sums-of-assigned-descriptor-weights", "large cloud: %s vs %s" % (np.asarray(gw).tolist(), W.tolist()))
+    H = np.asarray(m.bandwidth_, float)
+    Q = np.array([[0.3, 0.2], [2.5, 2.4], [9.0, 9.0]])
+    got = np.asarray(m.score_samples(Q.copy()), float)
+    want, _ = _mixture(Q, D, w, G, H, labels, None)
+    if np.abs(got - want).max() > 1e-8 * max(1.0, np.abs(want).max()):
+        return r.fail("score_samples-differs-from-documented-mixture", "large cloud: %s vs %s" % (got.tolist(), want.tolist()))
+    r.nontrivial = True
+    r.outcome = ["big5000", np.round(got, 6).tolist()]
     return r
